@@ -69,7 +69,7 @@ def step (d : D) (ws : List String) : D × String :=
     let c := runWorkload P crc32 d.sync d.mem d.ops.reverse
     let parts := (ackPositions c).zipIdx.map (fun (k, a) =>
       let (m, seq) := recoveredPower P crc32 c k
-      let lens := String.intercalate "," ((syncedAt c k).map toString)
+      let lens := String.intercalate "," ((syncedLens c k).map toString)
       s!"{a + 1}:{lens}:{digest m seq}")
     (d, String.intercalate " " ("power" :: toString parts.length :: "-" :: parts))
   | _ => (d, "bad-op")
